@@ -57,6 +57,10 @@ def structural_mutation(rng, wj):
         else:
             c[k] = rng.choice([1, "dict", [], None])
         return "value of '%s' replaced by %s" % (k, json.dumps(c[k])[:40]), None, w
+    if u < 0.43 and w.get("coordinate system", {}).get("model") == "spherical":
+        # schema-valid but unsupported: the published schema lists 'continuous', the library does not implement it
+        w["coordinate system"]["depth method"] = "continuous"
+        return "spherical depth method 'continuous' (listed in the schema, not implemented)", True, w
     if u < 0.46:
         w["version"] = rng.choice(["0.9", "1.0", "2.0", "", 1.1, "1.1 ", None])
         return "version %s" % json.dumps(w["version"]), True, w
@@ -81,6 +85,12 @@ def structural_mutation(rng, wj):
             else:
                 c[k] = v[:1]
             return "list '%s' %s (length %d -> %d)" % (k, what, len(v), len(c[k])), None, w
+    secs = [f for f in w["features"] if f["model"] in ("subducting plate", "fault") and f.get("sections")]
+    if secs and rng.random() < 0.6:
+        f = rng.choice(secs)
+        n = len(f["coordinates"])
+        f["sections"][0]["coordinate"] = rng.choice([n, n, n + 1, n + 7])
+        return "section entry for coordinate %d of a feature with %d coordinates" % (f["sections"][0]["coordinate"], n), True, w
     # an unsupported option value
     strs = [p for p in ps if isinstance(p[0][p[1]], str) and p[1] in ("model", "operation", "interpolation", "depth method", "reference model name")]
     if strs:
